@@ -1,37 +1,50 @@
 ---- MODULE TokMut ----
-(* Single-token mutants of a schema text.  The text is given as its token sequence (file named by the environment  *)
-(* variable TOKS, one record per token: k = "id" | "kw" | "lit" | "op"; u = the identifier stands at a using        *)
-(* position - it refers to a declaration and is not itself the declared name; h = a number naming the token's      *)
-(* spelling).  A mutant is described by the sequence of its tokens: a positive number is the index of a token of   *)
-(* the original text, 0 / -1 / -2 stand for an undeclared identifier, a misplaced keyword and a literal.           *)
-(* C06 runs every mutant through the sanitizer-built tools; C04 additionally expects the verdict Expect: an        *)
-(* identifier at a using position that names nothing declared is an unresolvable reference, whatever the position. *)
+(* Single-edit mutants of a text given as a sequence of pieces: the tokens of an EXPRESS schema (C04, C06, C20) or *)
+(* the characters of the DATA section of a Part 21 file (C05).  The pieces come from the file named by the         *)
+(* environment variable TOKS, one record per piece: k = "id" | "kw" | "lit" | "op"; u = the identifier stands at a *)
+(* using position - it refers to a declaration and is not itself the declared name; h = a number naming the        *)
+(* piece's spelling.  INS names a file with one record per insertable piece (punctuation, comment brackets, ...).  *)
+(* A mutant is an edit [at, drop, put]: drop that many pieces at position at and put the listed ones there; a      *)
+(* positive number is the index of a piece of the original, 0 / -1 / -2 stand for an undeclared identifier, a      *)
+(* misplaced keyword and a literal, -(10 + p) for the p-th insertable piece.                                      *)
+(* Every mutant is run through the sanitizer builds; C04 additionally expects the verdict Expect: an identifier at *)
+(* a using position that names nothing declared is an unresolvable reference, whatever the position.              *)
 EXTENDS Naturals, Integers, Sequences, TLC, Json, IOUtils
 Toks == ndJsonDeserialize(IOEnv.TOKS)
+Ins == ndJsonDeserialize(IOEnv.INS)
 N == Len(Toks)
-Ops == {"none", "del", "dup", "swap", "undecl", "tokw", "tolit"}
-Applicable(op, i) ==
-  CASE op = "none" -> i = 1
-    [] op = "swap" -> i < N /\ Toks[i].h # Toks[i + 1].h
-    [] op \in {"undecl", "tokw", "tolit"} -> Toks[i].k = "id"
-    [] OTHER -> TRUE
+Ops == {"none", "del", "dup", "swap", "undecl", "tokw", "tolit", "ins"}
+Applicable(op, i, p) ==
+  /\ (op # "ins") => p = 0 /\ i <= N
+  /\ CASE op = "none" -> i = 1
+       [] op = "swap" -> i < N /\ Toks[i].h # Toks[i + 1].h
+       [] op \in {"undecl", "tokw", "tolit"} -> Toks[i].k = "id"
+       [] op = "ins" -> p \in 1..Len(Ins)
+       [] OTHER -> TRUE
+Edit(op, i, p) ==
+  CASE op = "none" -> [at |-> 1, drop |-> 0, put |-> <<>>]
+    [] op = "del" -> [at |-> i, drop |-> 1, put |-> <<>>]
+    [] op = "dup" -> [at |-> i, drop |-> 0, put |-> <<i>>]
+    [] op = "swap" -> [at |-> i, drop |-> 2, put |-> <<i + 1, i>>]
+    [] op = "undecl" -> [at |-> i, drop |-> 1, put |-> <<0>>]
+    [] op = "tokw" -> [at |-> i, drop |-> 1, put |-> <<-1>>]
+    [] op = "tolit" -> [at |-> i, drop |-> 1, put |-> <<-2>>]
+    [] op = "ins" -> [at |-> i, drop |-> 0, put |-> <<0 - (10 + p)>>]
 Ix(a, b) == [j \in 1..(IF b >= a THEN b - a + 1 ELSE 0) |-> a + j - 1]
-Apply(op, i) ==
-  CASE op = "none" -> Ix(1, N)
-    [] op = "del" -> Ix(1, i - 1) \o Ix(i + 1, N)
-    [] op = "dup" -> Ix(1, i) \o Ix(i, N)
-    [] op = "swap" -> Ix(1, i - 1) \o <<i + 1, i>> \o Ix(i + 2, N)
-    [] op = "undecl" -> Ix(1, i - 1) \o <<0>> \o Ix(i + 1, N)
-    [] op = "tokw" -> Ix(1, i - 1) \o <<-1>> \o Ix(i + 1, N)
-    [] op = "tolit" -> Ix(1, i - 1) \o <<-2>> \o Ix(i + 1, N)
+Splice(e) == Ix(1, e.at - 1) \o e.put \o Ix(e.at + e.drop, N)
+Apply(op, i, p) == Splice(Edit(op, i, p))
 Expect(op, i) == IF op = "none" THEN "valid" ELSE IF op = "undecl" /\ Toks[i].u THEN "fault" ELSE "any"
 (* every mutant differs from the original in at most two adjacent positions, and "none" is the original *)
-Sane(op, i) == /\ Len(Apply(op, i)) \in {N - 1, N, N + 1}
-               /\ \A j \in 1..Len(Apply(op, i)) : j < i => Apply(op, i)[j] = j
-               /\ op = "none" => Apply(op, i) = Ix(1, N)
-VARIABLES op, i
-Init == op \in Ops /\ i \in 1..N /\ Applicable(op, i)
-Next == UNCHANGED <<op, i>>
-Emit == PrintT("@@CASE " \o ToJson([op |-> op, i |-> i, expect |-> Expect(op, i), toks |-> Apply(op, i)]))
-SaneInv == Sane(op, i)
+Sane(op, i, p) == LET a == Apply(op, i, p) IN
+                  /\ Len(a) \in {N - 1, N, N + 1}
+                  /\ \A j \in 1..Len(a) : j < i => a[j] = j
+                  /\ op = "none" => a = Ix(1, N)
+                  /\ op = "del" => a = Ix(1, i - 1) \o Ix(i + 1, N)
+                  /\ op = "ins" => a[i] < 0 /\ \A j \in (i + 1)..(N + 1) : a[j] = j - 1
+VARIABLES op, i, p
+Init == op \in Ops /\ i \in 1..(N + 1) /\ p \in 0..Len(Ins) /\ Applicable(op, i, p)
+Next == UNCHANGED <<op, i, p>>
+Emit == PrintT("@@CASE " \o ToJson([op |-> op, i |-> i, p |-> p, expect |-> IF i <= N THEN Expect(op, i) ELSE "any", edit |-> Edit(op, i, p)]))
+\* (quadratic in N: checked on texts of up to 400 pieces; the operators do not depend on N)
+SaneInv == N <= 400 => Sane(op, i, p)
 ====
